@@ -36,7 +36,8 @@ namespace sim {
     X(frame_read_row, "C15", 0) X(frame_read_cell, "C15", 0) X(frame_read_col, "C15", 0) \
     X(abuse_array, "C16", 1) X(abuse_dims, "C16", 1) X(abuse_tag, "C16", 1) X(abuse_none, "C16", 1) \
     X(abuse_frame, "C16", 1) X(abuse_misc, "C16", 1) \
-    X(force_id, "C12", 1)
+    X(force_id, "C12", 1) \
+    X(ro_catalogue, "C09", 0) X(mode_probe, "C09", 0) X(version_cube, "C10", 0) X(xp, "C12", 0)
 
 enum OpKind {
 #define X(n, o, m) OP_##n,
@@ -221,6 +222,7 @@ struct World {
 void progress(int idx, int kind);
 int create_array_op(World &w, const Op &op);
 int create_frame_op(World &w, const Op &op);
+int exec_special_op(World &w, const Op &op);
 
 // helper used by several files
 std::string dtype_name(nix::DataType dt);
